@@ -2502,15 +2502,87 @@ def run(prop, tier, spec, jobs=16):
     return res
 
 
+def _norm_default(x):
+    x = re.sub(r"\b(?:nmtools::|meta::|::)", "", x or "")
+    x = re.sub(r"\s+", "", x)
+    x = re.sub(r"\b(?:None|none_t\{\})", "none_t{}", x)
+    return x
+
+
+def _effective_default(p, tparams):
+    """default value of a function parameter as the caller gets it: `T{}` / `T{v}` with T a template parameter is read through T's default type"""
+    if not p.get("default"):
+        return None
+    tparams = dict(tparams)
+    for _ in range(4):   # a default type may name an earlier template parameter (max_val_t = min_val_t)
+        for k, d in list(tparams.items()):
+            if d in tparams and tparams[d]:
+                tparams[k] = tparams[d]
+    dx = p.get("defexpr", "")
+    m = re.fullmatch(r"(\w+)\{(.*)\}", dx)
+    if m and m.group(1) in tparams:
+        d = tparams[m.group(1)]
+        return _norm_default(d + "{" + m.group(2) + "}") if d else None
+    m = re.fullmatch(r"(\w+)\((.*)\)", dx)
+    if m and m.group(1) in tparams:
+        d = tparams[m.group(1)]
+        return _norm_default(d + "{" + m.group(2) + "}") if d else None
+    return _norm_default(dx) if dx and dx != "<default>" else None
+
+
+def rule_fwd_defaults(rows, prop):
+    """R-FWD.defaults (C10): a defaulted leading parameter of array::X has the default the lazy view::X gives the parameter at the same position
+    (array::X(a) must evaluate the view the user gets from view::X(a))."""
+    tbl = load_table("fwd_tables.json")
+    aliases = tbl["array_view_alias"]; exempt = tbl["array_exempt"]
+    allowed = tbl.get("array_default_exempt", {})
+    views = {}
+    for r in rows:
+        if "fn" in r and not r.get("lambda") and r["fn"].startswith("nmtools::view::") and "/array/view/" in r.get("file", ""):
+            views.setdefault(r["fn"][len("nmtools::view::"):], []).append(r)
+    findings, instances, samples = [], 0, []
+    for r in rows:
+        if "fn" not in r or r.get("lambda") or "/array/array/" not in r.get("file", ""):
+            continue
+        names = [p["name"] for p in r["params"]]
+        if "context" not in names or r["fn"] in exempt:
+            continue
+        lead = r["params"][:names.index("context")]
+        if not any(p.get("default") for p in lead):
+            continue
+        want = expected_view_name(r, aliases)
+        cands = [v for v in views.get(want, []) if len(v["params"]) >= len(lead) and all(q.get("default") or q.get("pack") for q in v["params"][len(lead):])
+                 and sum(1 for q in v["params"] if not q.get("default") and not q.get("pack")) <= len(lead)]
+        if len(cands) != 1:
+            continue
+        v = cands[0]
+        at = {t["name"]: t["default"] for t in r.get("tparams", [])}; vt = {t["name"]: t["default"] for t in v.get("tparams", [])}
+        for i, p in enumerate(lead):
+            q = v["params"][i]
+            da, dv = _effective_default(p, at), _effective_default(q, vt)
+            if da is None or dv is None:
+                continue
+            instances += 1
+            key = "%s#%s" % (r["fn"], p["name"])
+            if da != dv and key not in allowed:
+                findings.append(finding("R-FWD.defaults", prop, r, "parameter " + p["name"],
+                                        "eager wrapper defaults parameter %d ('%s') to %s, the lazy view %s defaults it to %s: omitting the argument evaluates a different view" % (i, p["name"], da, v["fn"], dv)))
+            elif len(samples) < 4:
+                samples.append("R-FWD.defaults %s: %s = %s" % (r["fn"], p["name"], da))
+    return findings, instances, samples
+
+
 def comp_fwd_array(prop, tier, comp, work):
     t0 = time.time()
     tu, n = gen_umbrella(["nmtools/array/array"], work, "umb_array.cpp")
-    rows, err, cmd = run_nmlint(tu, filters=["include/nmtools/array/array/"])
+    rows_all, err, cmd = run_nmlint(tu, filters=["include/nmtools/array/array/", "include/nmtools/array/view/"])
+    rows = [r for r in rows_all if "/array/array/" in r.get("file", "")]
     out = dict(broken=[], units=n, functions=len(rows), cmd=cmd)
     if err:
         out["broken"].append(err); return out
     f, inst, samples = rule_fwd_array(rows, prop)
-    out.update(findings=f, instances={"R-FWD.array": inst}, evaluations=inst, distinct_nontrivial=inst - len(f), samples=samples, wall_s=round(time.time() - t0, 2))
+    f2, inst2, samples2 = rule_fwd_defaults(rows_all, prop)
+    out.update(findings=f + f2, instances={"R-FWD.array": inst, "R-FWD.defaults": inst2}, evaluations=inst + inst2, distinct_nontrivial=inst + inst2 - len(f) - len(f2), samples=samples + samples2, wall_s=round(time.time() - t0, 2))
     return out
 
 
